@@ -174,6 +174,14 @@ fn stacks_targets(t: &Targets) -> Vec<(&'static str, Dispatch, RecLayer)> {
 fn env(s: &str) -> Result<EnvFilter, String> {
     EnvFilter::builder().parse(s).map_err(|e| e.to_string())
 }
+/// the same filter built up one directive at a time (EnvFilter::add_directive), starting from an empty one
+fn env_added(s: &str) -> Option<EnvFilter> {
+    let mut f = EnvFilter::builder().parse("").ok()?;
+    for d in s.split(',').filter(|x| !x.trim().is_empty()) {
+        f = f.add_directive(d.parse().ok()?);
+    }
+    Some(f)
+}
 fn stacks_env(s: &str, x: u64) -> Vec<(&'static str, Dispatch, RecLayer)> {
     use tracing_subscriber::filter::FilterExt;
     let r1 = RecLayer::default();
@@ -186,7 +194,12 @@ fn stacks_env(s: &str, x: u64) -> Vec<(&'static str, Dispatch, RecLayer)> {
     let r8 = RecLayer::default();
     let r9 = RecLayer::default();
     type DynF = dyn tracing_subscriber::subscribe::Filter<tracing_subscriber::Registry> + Send + Sync;
-    vec![
+    let r10 = RecLayer::default();
+    let mut extra = vec![];
+    if let Some(f) = env_added(s) {
+        extra.push(("E-added", Dispatch::new(tracing_subscriber::registry().with(f).with(r10.clone())), r10));
+    }
+    let mut v = vec![
         // the per-layer filter type-erased: Box<dyn Filter> / Arc<dyn Filter> must forward every callback
         ("E-box", Dispatch::new(tracing_subscriber::registry().with(r7.clone().with_filter(Box::new(env(s).unwrap()) as Box<DynF>))), r7),
         ("E-arc", Dispatch::new(tracing_subscriber::registry().with(r8.clone().with_filter(std::sync::Arc::new(env(s).unwrap()) as std::sync::Arc<DynF>))), r8),
@@ -201,7 +214,9 @@ fn stacks_env(s: &str, x: u64) -> Vec<(&'static str, Dispatch, RecLayer)> {
         ("E-or1", Dispatch::new(tracing_subscriber::registry().with(r3.clone().with_filter(lf(x).or(env(s).unwrap())))), r3),
         ("E-or2", Dispatch::new(tracing_subscriber::registry().with(r4.clone().with_filter(env(s).unwrap().or(lf(x))))), r4),
         ("E-and", Dispatch::new(tracing_subscriber::registry().with(r5.clone().with_filter(lf(x).and(env(s).unwrap())))), r5),
-    ]
+    ];
+    v.extend(extra);
+    v
 }
 
 fn main() {
